@@ -3474,10 +3474,11 @@ class SFTPClientFile:
             try:
                 # When reading to the end of the file, always use the
                 # block reader, as it retries reads which come back short
-                if self.read_len and (read_to_end or size > \
+                if read_to_end or (self.read_len and size > \
                         min(self.read_len, self._handler.limits.max_read_len)):
                     data = await _SFTPFileReader(
-                        self.read_len, self._max_requests, self._handler,
+                        self.read_len or self._handler.limits.max_read_len,
+                        self._max_requests, self._handler,
                         self._handle, offset, size).run()
                 else:
                     data, _ = await self._handler.read(self._handle,
